@@ -115,15 +115,22 @@ fn replay_rank<const D: usize>(case: &Value, v: &mut Verdict) {
     v.checks += 2;
     let mut d3 = data.clone();
     *d3.last_mut().unwrap() += 1;
-    if !(a == b && a == c) || a == Tensor::<i64, D>::from_vec(dims, d3) {
+    let a3 = Tensor::<i64, D>::from_vec(dims, d3);
+    if !(a == b && a == c) || a == a3 {
         v.mismatch("tensor.eq: does not follow the elements", ctx(json!({})));
+    }
+    // the != operator is the negation of == (PartialEq::ne may be overridden)
+    v.checks += 2;
+    if a != b || a != c || !(a != a3) {
+        v.mismatch("tensor.ne: is not the negation of ==", ctx(json!({})));
     }
     for s in arr(case, "same_count") {
         let od: [usize; D] = arr_d(&us(s));
         v.checks += 1;
-        match catch(|| a == Tensor::<i64, D>::from_vec(od, data.clone())) {
-            Ok(true) => v.mismatch("tensor.eq: tensors of different shape compare equal", ctx(json!({"other_dims": s}))),
-            Ok(false) => {}
+        match catch(|| { let o = Tensor::<i64, D>::from_vec(od, data.clone()); (a == o, a != o) }) {
+            Ok((true, _)) => v.mismatch("tensor.eq: tensors of different shape compare equal", ctx(json!({"other_dims": s}))),
+            Ok((false, false)) => v.mismatch("tensor.ne: is not the negation of ==", ctx(json!({"other_dims": s}))),
+            Ok((false, true)) => {}
             Err(m) => v.mismatch("tensor.eq: panic", ctx(json!({"other_dims": s, "panic": m}))),
         }
     }
@@ -186,7 +193,7 @@ fn io_rank<const D: usize>(rng: &mut Rng, t: &mut TraceWriter) {
         let sched: Vec<i64> = (0..text.len() + 2).map(|i| 1 + (i % 5) as i64).collect();
         let src = crate::reader::Scripted::new(text, sched, Rc::new(std::cell::Cell::new(0)), Rc::new(std::cell::Cell::new(0)));
         let back = Tensor::<i64, D>::read(dims, &mut Reader::new(Box::new(src)));
-        let eq = back == a;
+        let eq = back == a && !(back != a);
         (w, back.iter().cloned().collect::<Vec<i64>>(), eq)
     });
     match r {
